@@ -41,6 +41,12 @@ func init() {
 	for i, m := range Methods {
 		methodIndexMap[m] = 1 << i
 	}
+
+	// 预先生成所有的组合。methodIndexes 是所有 Tree 实例共享的全局变量，
+	// 如果在使用时才写入，不同的路由实例之间会产生数据竞争。
+	for i := 0; i < 1<<len(Methods); i++ {
+		buildMethodIndexes(i)
+	}
 }
 
 type methodIndexEntity struct {
